@@ -216,6 +216,20 @@ def run_case(inp):
             m2 = mk(pos, rd(m))
             if (m2.rotator * rots.inv()).magnitude().max() > 1e-6 or np.abs(m2.pos - pos).max() > 0:
                 V("representation", f"{name} round trip changes the orientation")
+        # a quaternion is a rotation up to a positive factor (scipy's convention, which from_quat documents itself
+        # by): the axes stay orthonormal and every derived object inherits that
+        qs = m.quaternion().astype(np.float64) * r.uniform(0.2, 9.0, size=(n, 1))
+        mq = Molecules.from_quat(pos, qs)
+        for label, obj in (("from_quat", mq), ("from_quat().copy()", mq.copy()), ("from_quat().subset()", mq.subset(slice(None))),
+                           ("concat([from_quat()])", Molecules.concat([mq]))):
+            M = np.asarray(obj.matrix(), dtype=np.float64)
+            if np.abs(M @ np.transpose(M, (0, 2, 1)) - np.eye(3)).max() > 1e-5 or (obj.rotator * rots.inv()).magnitude().max() > 1e-5:
+                V("representation", f"{label} with non-unit quaternions: the axes are not the orthonormal axes of the rotation "
+                                    f"(|M M^T - 1| = {np.abs(M @ np.transpose(M, (0, 2, 1)) - np.eye(3)).max():.3g})")
+                break
+        dd = r.uniform(-3, 3, size=3)
+        if np.abs(mq.translate_internal(dd).pos - (pos + rots.apply(dd))).max() > 1e-3:
+            V("compose", "translate_internal on molecules built from non-unit quaternions does not add R d")
     elif kind == "compose":
         W = Rotation.random(n, random_state=inp["seed"] + 5)
         d = r.uniform(-3, 3, size=(n, 3))
